@@ -8,7 +8,7 @@ def run(ctx, ps, gen_bad):
     runs = [(150, 250), (150, 200), (120, 150)] if ctx.quick else [(1500, 4000)] * 6
     fails, cov = p_c17.run_kind(ctx, 'kvs', runs)
     # concurrent multi-puts on overlapping key sets and gets: a sequential order over the model must explain each history
-    f2, c2 = p_c17.conc(ctx, 16 if ctx.quick else 400, 4, 12, mode='kvsconc')
+    f2, c2 = p_c17.conc(ctx, 90 if ctx.quick else 2500, 6, 40, mode='kvsconc')
     fails += f2
     cov.update(c2)
     cov['evaluations'] += c2['concurrent_histories']
